@@ -133,7 +133,7 @@ def gen_case(draw):
                                            st.builds(lambda d, f, e, tail: float('%d.%06d%se%d' % (d, f, tail, e)), st.integers(1, 9),
                                                      st.integers(0, 999999), st.integers(0, 14), st.sampled_from(['4999996', '5000004', '4999994']))))}
     return {'k': 'gen', 'blocks': blocks, 'nv': nv, 'pass_nv': (nv > 4) or draw(st.booleans()),
-            'check': check, 'toughreact': toughreact, 'timing': timing, 'reset': draw(st.booleans()), 'prewrite': draw(st.sampled_from([None, None, 'reset', 'keep'])),
+            'check': check, 'toughreact': toughreact, 'timing': timing, 'reset': draw(st.booleans()), 'prewrite': draw(st.sampled_from([None, None, 'reset', 'keep'])), 'refused_first': draw(st.integers(0, 4)) == 0,
             'built_by': draw(st.sampled_from(['add', 'add', 'insert-front', 'delete-readd'])),
             'style': draw(st.sampled_from(['E', 'D', 'e'])),
             'reuse': draw(st.sampled_from([None, None, 'TOUGH2', 'TOUGHREACT']))}
@@ -253,6 +253,19 @@ def run_gen(case, R):
     if len(set(e['name'] for e in exp)) != len(exp): raise HarnessError('generator produced colliding names')
     f1, f2, f3 = (os.path.join(R.tmp, n) for n in ('a.incon', 'b.incon', 'c.incon'))
     # leg 1: lib -> lib
+    if case.get('refused_first'):
+        # call history across objects: another set, one of whose records cannot be written (a sequence number wider than
+        # its five columns), was refused - loudly - in this process before; nothing of it may turn up in later files
+        import t2incons
+        other = t2incons.t2incon()
+        other['  z 1'] = t2incons.t2blockincon([1.0e5, 20.0], '  z 1')
+        other['  z 2'] = t2incons.t2blockincon([2.0e5, 30.0], '  z 2', nseq=123456, nadd=1)
+        other['  z 3'] = t2incons.t2blockincon([3.0e5, 40.0], '  z 3')
+        try:
+            other.write(os.path.join(R.tmp, 'refused.incon'))
+            R.label('history:unwritable-set-not-refused')
+        except (ValueError, OverflowError):
+            R.label('history:another-write-was-refused-before')
     with R.lib('write'):
         inc = build(case)
         if case.get('prewrite'):
